@@ -105,6 +105,12 @@ def shapes_of(fn):
     for n in _stmts_in_order(fn):
         if isinstance(n, (ast.Assign, ast.AugAssign, ast.Expr, ast.Return, ast.Raise, ast.Delete, ast.Assert)):
             stmts.append(U(n))
+    nest = []
+    for n in ast.walk(fn):
+        if isinstance(n, ast.If):
+            for sub in n.body + n.orelse:
+                if isinstance(sub, ast.If):
+                    nest.append([U(n.test), U(sub.test)])
     fors = []
     comps = set()
     for n in ast.walk(fn):
@@ -115,7 +121,7 @@ def shapes_of(fn):
         if isinstance(n, ast.JoinedStr):
             comps.add(U(n))
     return {'cmp': sorted(cmp_), 'tests': sorted(tests), 'aug': sorted(augs), 'subs': sorted(subs), 'calls': sorted(calls),
-            'else': els, 'stmts': stmts, 'for': fors, 'comps': sorted(comps),
+            'else': els, 'stmts': stmts, 'for': fors, 'comps': sorted(comps), 'nest': nest,
             'params': [a.arg for a in fn.args.args] if isinstance(fn, (ast.FunctionDef, ast.AsyncFunctionDef)) else [],
             'ndefaults': len(fn.args.defaults) if isinstance(fn, (ast.FunctionDef, ast.AsyncFunctionDef)) else 0,
             'breaks': sum(1 for n in ast.walk(fn) if isinstance(n, ast.Break)),
@@ -211,6 +217,7 @@ class _Canon(ast.NodeTransformer):
         self.subs = set(ref.get('subs', ()))
         self.calls = set(ref.get('calls', ()))
         self.comps = set(ref.get('comps', ()))
+        self.nest = {tuple(x) for x in ref.get('nest', ())}
         self.ref_breaks = ref.get('breaks', 0)
         self.ref_continues = ref.get('continues', 0)
         self.els = ref.get('else', {})
@@ -494,7 +501,8 @@ class _Canon(ast.NodeTransformer):
                         self.steps.append('S25 ' + U(st.test)[:60])
                         changed_ = True
                         continue
-                    if isinstance(st.test.op, ast.And) and (U(vals[0]) in self.tests):
+                    rest_t = vals[1] if len(vals) == 2 else ast.BoolOp(op=ast.And(), values=vals[1:])
+                    if isinstance(st.test.op, ast.And) and (U(vals[0]), U(rest_t)) in self.nest:
                         rest = vals[1] if len(vals) == 2 else ast.BoolOp(op=ast.And(), values=vals[1:])
                         inner = ast.If(test=rest, body=st.body, orelse=[])
                         outer = ast.If(test=vals[0], body=[inner], orelse=[])
